@@ -34,6 +34,8 @@ Alphabet ==
     [] AlphaSel = "big"   -> {WZero, W(1), U32MAX, U32MAXP1, TWO63, USIZEMAX}
     \* offsets as ConsecutiveIndexPairs / ColumnsRegion produce them (non-decreasing, starting at 0) with a stride of
     \* 2^31 that runs past u32::MAX, a value that breaks it, and its next multiple: 0, s, 2s, 3s, 3s+1, 4s
+    \* offsets whose items have 2^63 elements (zero-sized payloads): stride * count leaves usize at the third offset
+    [] AlphaSel = "monobig" -> {WZero, <<0, 0, 0, 16384>>, TWO63, <<0, 0, 0, 49152>>, USIZEMAXM1, USIZEMAX}
     [] AlphaSel = "mono"  -> {WZero, <<0, 32768, 0, 0>>, <<0, 0, 1, 0>>, <<0, 32768, 1, 0>>, <<1, 32768, 1, 0>>, <<0, 0, 2, 0>>}
 
 \* batches for extend: every pair over a reduced alphabet, plus the empty batch
